@@ -9,7 +9,7 @@ RULE = ("list: 0..500 DENT records with names of 1..255 arbitrary bytes (incl. '
         "non-trivial = list with >= 1 entry or any stat; distinct = distinct (op, impl, entry-count bucket, split, frag) signatures + cut offsets")
 ASSUMPTIONS = ["a sync FAIL in reply to LIST is not part of this property (it cannot be framed in the 20-byte list format)"]
 SHARDS = {"quick": 8, "thorough": 16}
-TIME_BUDGET = {"quick": 60, "thorough": 600}
+TIME_BUDGET = {"quick": 300, "thorough": 1800}
 FLOORS = {"quick": {"lists": 300, "stats_": 300, "entries_compared": 5000, "cut_offsets": 200, "distinct": 60}, "thorough": {"lists": 5000, "stats_": 5000, "entries_compared": 100000}}
 
 FIELD = [0, 1, 0x7FFFFFFF, 0x80000000, 0xFFFFFFFE, 0xFFFFFFFF]
